@@ -44,10 +44,42 @@ def run(ctx):
             small = {k: v for k, v in ev.items() if k not in ("items", "flat", "results")}
             ctx.violation(sig, {"what": "%s false for %s read of replica %s: root height %s, node height %s" % (
                 w, ev.get("event"), ev.get("r"), ev.get("h"), ev.get("at")), "event": small, "ctx": f.get("ctx"), "line": f["line"]})
+    archival_module(ctx)
     if not fails:
         selftest(ctx, events)
     ctx.assumptions.append("retention per configuration: default keeps every height, RemoveUntraceableBlocks keeps heights within MaxTraceableBlocks of the tip, KeepOnlyLatestState only the current one; only retained heights are judged")
     ctx.assumptions.append("bounded find is judged under its documented semantics (suffix strictly after start; no start => key equal to prefix included)")
+
+
+def archival_module(ctx):
+    """stateroot.Module driven the way storeBlock drives it, in the archival (default) trie mode, with blocks that are
+    computed and then dropped (a block rejected after its MPT batch was built): every stored root must give back exactly
+    the content committed at its height (MPTRefTrace, read predicates; spec/mptref, harness/c11ref archival histories)."""
+    q = ctx.quick()
+    res = ctx.go_driver("c11ref", "TestDriver", env={"VERIF_RANDOM": 0, "VERIF_TRIE": 0, "VERIF_CHAINS": 0,
+                                                     "VERIF_ARCHIVAL": 150 if q else 3000}, timeout=1500)
+    res2 = dict(res)
+    res2["violations"] = [v for v in res.get("violations") or []]
+    ctx.absorb(res2)
+    trace = os.path.join(res["_out"], "trace.ndjson")
+    events = vlib.read_ndjson(trace)
+    fails = ctx.trace_judge("mptref", "MPTRefTrace.tla", "Trace_MPTRef.cfg", trace, timeout=1500)
+    ctx.traces_validated += res.get("traces", 0)
+    ctx.extra["archival_module_events"] = len(events)
+    seen = set()
+    for f in fails:
+        li = f["line"] - 1
+        s = li
+        while s > 0 and events[s]["event"] != "init":
+            s -= 1
+        if s in seen:
+            continue
+        seen.add(s)
+        ev = events[li]
+        for w in sorted(f["what"]):
+            ctx.violation({"kind": w, "part": "module-archival", "op": ev["event"], "history": ev.get("class", "committed-only")},
+                          {"what": "%s false: a root stored by stateroot.Module (archival mode) does not give back the content committed at its height" % w,
+                           "src": events[s].get("src"), "events": [{k: v for k, v in e.items() if k not in ("put", "del")} for e in events[s:li + 1]][-6:]})
 
 
 def selftest(ctx, events):
